@@ -140,6 +140,11 @@ func CheckHashes(c HCase) (vs hx.Vs, nontrivial bool, classes []string) {
 		if len(x) == 0 {
 			classes = append(classes, "plain:empty")
 		}
+		if w.Reg.MatchDataSignature(x) {
+			// a plaintext that reads as a protected value is indexed by what it decrypts to (C01's pass-through law)
+			classes = append(classes, "plain:is-envelope")
+			continue
+		}
 		for _, who := range [][]byte{w.Alice, w.Bobby} {
 			for _, wr := range writers {
 				wr := wr
@@ -269,7 +274,7 @@ func genHCase(t *rapid.T) HCase {
 
 func TestHashes(t *testing.T) {
 	R.Rule("TestHashes", "2-4 plaintexts (G-bytes classes; deliberate duplicates, prefixes/extensions of one another, empty) are indexed for alice and bobby through every entry point (SearchableEncryptor, the proxies' write chain, SearchableEncryptor fed a client-side envelope, translator EncryptSearchable / EncryptSymSearchable / GenerateQueryHash, library composition). Oracles: first byte 0x7f, first 33 bytes equal 0x7f||HMAC-SHA256(client key, plaintext) computed independently; pairwise: same client and plaintext => same index, different plaintext => different, different client => different; owner reads the plaintext through the searchable column chain; a value carrying another plaintext's index is never revealed as plaintext by a hash-verifying reveal entry point. Non-trivial = the case holds a duplicated plaintext")
-	hx.Checks(40, 400)
+	hx.Checks(40, 3000)
 	rapid.Check(t, func(rt *rapid.T) {
 		c := genHCase(rt)
 		vs, nt, cl := CheckHashes(c)
